@@ -34,6 +34,9 @@ def src_lines(text):
     if isinstance(text, str):
         text = text.encode("latin-1", "replace")
     out = []
+    if text.count(b"\n") > 150:
+        # big inputs: fixed-size pieces, so that the engine's line-removal shrinker stays cheap
+        return ["src " + text[j:j + 4000].hex() for j in range(0, len(text), 4000)]
     parts = text.split(b"\n")
     for i, p in enumerate(parts):
         chunk = p + (b"\n" if i < len(parts) - 1 else b"")
